@@ -15,7 +15,7 @@ checks = {
    note="bounded: 2-3 threads, P<=2 (quick) / P<=3 (thorough), F<=1/2; the maximal-progress virtual clock encodes the premise that live holders renew in time; in-memory storage, plus a family over the Redis backend (miniredis, command-level scheduling points, no cancellable contexts because go-redis runs those commands on its own goroutine); the cooperative scheduler cannot see data races: a separate free-running -race audit of distlock (time-boxed, supplementary) audits that assumption"),
  "C03": dict(engine="Q", cat="model_checking", tech=Q,
    text="all sequences of Storage operations over 3 keys / small value, expiry, version-kind and pattern alphabets to a fixpoint of the canonical model state; in-memory and Redis (miniredis) backends driven in lock-step and compared with a reference model after every operation",
-   note="trusted: miniredis behaves like Redis for SETNX/WATCH/MULTI/EXEC/MSET/PX/SCAN; version strings abstracted to tokens (only compared for equality by both backends); one known finding (leading '/' stripped by the Redis backend, several signatures) is reported as KNOWN-FINDING and does not cut the exploration (the aliased key is no longer observed on that backend for the rest of the history); patterns include the gobwas/glob forms {a,b} and [!a] that Redis MATCH does not share; a second small search covers the empty key"),
+   note="trusted: miniredis behaves like Redis for SETNX/WATCH/MULTI/EXEC/MSET/PX/SCAN; version strings abstracted to tokens (only compared for equality by both backends); one known finding (leading '/' stripped by the Redis backend, several signatures) is reported as KNOWN-FINDING and does not cut the exploration (the aliased key is no longer observed on that backend for the rest of the history); patterns include the gobwas/glob forms {a,b} and [!a] that Redis MATCH does not share; a second small search covers the empty key; every listing is made with a second live iterator; one long history over 21 near-identical keys; a GetMany of 70 keys; the state key contains the complete in-memory implementation state (deepdump)"),
  "C06": dict(engine="Q+S", cat="model_checking", tech=Q + "; every transition runs inside one execution of the controlled scheduler so that time is virtual",
    text="all histories over 2 keys of writes with expiry none/short/long/sub-millisecond/9999-12-31/1000-01-01, clock steps, and every operation kind (incl. WaitForVersionChange) as first and later touch of an expired key, per backend, to a fixpoint; model deletes a record at its expiration instant; plus Engine-S families: 2-3 concurrent waiters on one expiring record with cancellers, a writer renewing the record at the instant it expires under 1-2 sleeping waiters, a waiter arriving within nanoseconds of the expiration instant, readers racing a writer on an expired untouched record (every order within P<=2)",
    note="virtual clock drives time.Now of the rewritten backends and miniredis' TTL clock; at most 3 clock steps per history; remaining lifetimes are bucketed (short/long) in the state key, sound because a clock step either expires every short record or no long one"),
@@ -56,7 +56,7 @@ checks = {
    text="every schedule within P<=2 (thorough 3) of 2-3 worker programs over Lock/TryLock/LockWithCtx+canceller/cancelled ctx/TryLock with a cancelled ctx/two attempts/hold across a renewal, plus a Shutdown pseudo thread, on the in-memory storage as it is and on a variant that refuses calls whose context has ended, with a scheduling point while the reply of Create/Delete is in transit; oracles: no deadlock with a blocked worker (lost wake-up), cancelled attempts return ctx.Err(), at the end the lock record is gone, the in-memory waiter table is empty and every Locker can be re-acquired, nothing acquires after Shutdown returned",
    note="liveness is judged as 'not blocked at quiescence' (no fairness assumption is needed: the SUT has no spin loops on the in-memory storage); weaker reading of 'after Shutdown': attempts invoked after Shutdown() returned"),
  "C05": dict(engine="S", cat="model_checking", tech=S + " with a virtual clock (maximal progress)",
-   text="scenario families on the virtual clock for leases 30ms/10s/100s (in-memory) and 300ms/700ms (kvs/redis over miniredis): handover to a long-waiting contender; up to 4 spaced lost renewal requests in one tenure of 4.5 leases; the acquisition context ending during the tenure on a context-honouring storage; lease kept over 3.5 leases with a contender and a prober (every renewal call may be lost, request or reply, F<=1); holder death at 6 scripted phases and at any scheduling point, contender must hold the lock within lease + one renewal period; Unlock exactly at the renewal instant followed by a second tenure, at most one stale renewal reaches the storage, none succeeds, timers and timer goroutines wind down",
+   text="scenario families on the virtual clock for leases 30ms/10s/100s (in-memory) and 300ms/700ms (kvs/redis over miniredis): handover to a long-waiting contender; up to 4 spaced lost renewal requests in one tenure of 4.5 leases; a storage that needs a sixth of a lease per renewal (request or reply side) with context deadlines on the virtual clock; the acquisition context ending during the tenure on a context-honouring storage; lease kept over 3.5 leases with a contender and a prober (every renewal call may be lost, request or reply, F<=1); holder death at 6 scripted phases and at any scheduling point, contender must hold the lock within lease + one renewal period; Unlock exactly at the renewal instant followed by a second tenure, at most one stale renewal reaches the storage, none succeeds, timers and timer goroutines wind down",
    note="in-memory storage (after the expiry repairs) and the Redis backend; one known finding: a renewal whose reply is lost ends the renewal chain (needs an owner token; recorded in known_findings.txt); P<=2 on long executions"),
  "C07": dict(engine="S", cat="model_checking", tech=S + "; justification of every return value decided by porcupine (Wait and Cancel as model operations)",
    text="1-3 waiters (current/stale/never-issued version, late waiters that read the version first; keys a, b and the slash-prefixed /s) x per-waiter canceller pseudo threads x every mutator sequence of <=3 operations (incl. writes that store the value already there), every schedule within P<=2 (thorough 3); oracles: return values justified at some instant of the call, no blocked waiter with a reason to return at quiescence, released waiters return the context error, waiter table empty at the end; Redis polling waiter on the virtual clock",
